@@ -29,8 +29,10 @@ def cases(tier):
     for ssm in ("isotropic", "blockdiag"):
         for calib in ("none", "mle"):
             out.append(f"ts0/{calib}/{ssm}/o1q1d2")
-    out += ["ts0/dynamic/isotropic/o1q1d2", "ts1dec/none/blockdiag/o1q1d2", "ts1iso/none/isotropic/o1q1d2"]
+    out += ["ts1dec/none/blockdiag/o1q1d2", "ts1iso/none/isotropic/o1q1d2"]
+    out += ["ts0damp/none/isotropic/o1q1d2", "ts0damp/none/blockdiag/o1q1d2"]
     if tier == "thorough":
+        out.append("ts0/dynamic/isotropic/o1q1d2")
         for calib in ("none", "mle", "dynamic"):
             out.append(f"ts0/{calib}/dense/o1q1d2")
         out += ["ts1dec/none/dense/o1q1d2", "ts1iso/none/dense/o1q1d2", "ts1iso/mle/isotropic/o1q1d2", "ts1iso/mle/dense/o1q1d2",
@@ -47,7 +49,8 @@ def build(case_id):
     import re
     order, q, d = map(int, re.match(r"o(\d+)q(\d+)d(\d+)", sz).groups())
     n = q + 1
-    lin = "ts0" if kind == "ts0" else "ts1"
+    lin = "ts0" if kind.startswith("ts0") else "ts1"
+    damped = kind == "ts0damp"
     cfg = sc.Cfg(ssm=ssm, q=q, d=d, order=order, lin=lin, calib=calib, strategy="filter", damp="zero")
     cfg_ref = sc.Cfg(ssm="dense", q=q, d=d, order=order, lin=lin, calib=calib, strategy="filter", damp="zero")
 
@@ -58,23 +61,27 @@ def build(case_id):
         t0 = sym_array(dom, "t0", ())
         h = sym_array(dom, "h", (), unit=True)
         run = sym_array(dom, "run", ())
-        co = {"c": sym_array(dom, "f0", (d,)), "e": sym_array(dom, "ft", (d,))}
-        if kind == "ts0":
-            co["C"] = sym_array(dom, "fC", (d, d)); co["g"] = sym_array(dom, "fg", (d,))
-        elif kind == "ts1dec":
-            co["C"] = sym_array(dom, "fC", (d, d), "diag"); co["g"] = sym_array(dom, "fg", (d,))
+        if kind.startswith("ts0"):
+            co = {"c": sym_array(dom, "f0", (d,)), "e": sym_array(dom, "ft", (d,)),
+                  "C": sym_array(dom, "fC", (d, d)), "g": sym_array(dom, "fg", (d,))}
+            if order == 2:
+                co["D"] = sym_array(dom, "fD", (d, d))
         else:
-            kap = sym_array(dom, "kap", ())
-            Cm = np.empty((d, d), dtype=object)
-            for a_ in range(d):
-                for b_ in range(d):
-                    Cm[a_, b_] = kap[()] if a_ == b_ else Poly()
-            co["C"] = Cm
-        if order == 2:
-            co["D"] = sym_array(dom, "fD", (d, d)) if kind == "ts0" else np.zeros((d, d))
+            # TS1: the field is parametrised by its value/Jacobian at the (correct) linearisation point
+            orc0 = Orc(dom)
+            prior_r = sc.concrete_prior(cfg_ref)
+            A0, Q0 = sc.prior_dense(orc0, cfg_ref, prior_r, {"q1": np.ones((n, n)), "lam": orc0.arr(np.ones((d,)))})
+            Ah0, _, _ = sc.transition_dense(orc0, cfg_ref, h[()], A0, Q0)
+            mp0 = Ah0.dot(M.reshape(-1))
+            ustar = sc.selector(orc0, cfg_ref, 0).dot(mp0)
+            dustar = sc.selector(orc0, cfg_ref, 1).dot(mp0) if order == 2 else None
+            co = sc.field_coeffs_at(dom, d, order, ustar, dustar, t0[()] + h[()], jac="diag" if kind == "ts1dec" else "scalar")
         co_c = {k: np.ones(np.shape(v)) for k, v in co.items()}
         solver_t, _, _ = sc.make_solver(cfg, co_c)
         prior_c = sc.concrete_prior(cfg)
+        # default base scales (ones), symbolic 1-d noise factor shared by all three factorisations
+        prior_sym, pinfo = sc.sym_prior(dom, cfg, prior_c, base_scale=(np.ones(()) if ssm == "isotropic" else np.ones((d,))))
+        make.q1 = pinfo["q1"]
         st0 = solver_t.init(t=0.0, u=prior_c, damp=0.0)
         _, Normal = cm.impl(ssm)
         if ssm == "dense":
@@ -91,31 +98,57 @@ def build(case_id):
             r = run if ssm != "blockdiag" else np.array([run[()]] * d, dtype=object)
             aux = (st0.auxiliary[0], r, 1.0)
         state = ProbabilisticSolution(t=t0, u=u, solution_full=u, output_scale=st0.output_scale,
-                                      num_steps=st0.num_steps, auxiliary=aux, fun_evals=st0.fun_evals, prior=prior_c)
+                                      num_steps=st0.num_steps, auxiliary=aux, fun_evals=st0.fun_evals, prior=prior_sym)
+
+        damp = sym_array(dom, "damp", ()) if damped else np.zeros(())
 
         def fn(state, h, co, extras):
+            import jax.numpy as jnp
             solver, _, _ = sc.make_solver(cfg, co)
-            o = solver.step(state, dt=h, damp=0.0)
-            return o.u, o.output_scale, o.auxiliary
+            o = solver.step(state, dt=h, damp=extras["damp"])
+            return o.u, o.output_scale, o.auxiliary, jnp.stack(o.u.std)
         make.prior = prior_c
-        return fn, (state, h, co, {"C": C, "M": M, "t0": t0, "run": run})
+        return fn, (state, h, co, {"C": C, "M": M, "t0": t0, "run": run, "damp": damp, "q1": pinfo["q1"]})
 
     def goals(args, out, orc):
         state, h, co, ex = args
-        u, oscale, aux = out
+        u, oscale, aux, std = out
         prior_ref = sc.concrete_prior(cfg_ref)
         one = orc.arr(np.ones((d,)))
-        A, Q = sc.prior_dense(orc, cfg_ref, prior_ref, {"q1": np.asarray(prior_ref.Q, dtype=float)[::d, ::d], "lam": one})
+        A, Q = sc.prior_dense(orc, cfg_ref, prior_ref, {"q1": ex["q1"], "lam": one})
         md = orc.arr(ex["M"]).reshape(-1)
         Ld = cm.embed_mat(orc, "isotropic", ex["C"], d)
         Pd = Ld.dot(Ld.T)
         hh = sc.sc(orc.arr(h)); t0 = sc.sc(orc.arr(ex["t0"]))
-        zero = Poly() if orc.sym else 0.0
-        ref = sc.ekf_step(orc, cfg_ref, co, md, Pd, t0, hh, zero, A, Q, running=ex["run"])
+        dd = sc.sc(orc.arr(ex["damp"]))
+        if kind == "ts1dec":
+            # componentwise-decoupled field: the block-diagonal model must equal d INDEPENDENT scalar dense solves
+            cfg1 = sc.Cfg(ssm="dense", q=q, d=1, order=order, lin=lin, calib=calib, strategy="filter", damp="zero")
+            prior1 = sc.concrete_prior(cfg1)
+            A1, Q1 = sc.prior_dense(orc, cfg1, prior1, {"q1": ex["q1"], "lam": orc.arr(np.ones((1,)))})
+            Cn = orc.arr(ex["C"]); Mn = orc.arr(ex["M"])
+            mo, Po = cm.dense_rv(orc, ssm, u, d)
+            res = {}
+            for a in range(d):
+                co_a = {k: (orc.arr(v)[a:a + 1] if np.ndim(v) == 1 else orc.arr(v)[a:a + 1, a:a + 1]) for k, v in co.items()}
+                ref_a = sc.ekf_step(orc, cfg1, co_a, Mn[:, a], Cn.dot(Cn.T), t0, hh, dd, A1, Q1)
+                sel = [i * d + a for i in range(n)]
+                res[f"dimension {a}: mean = scalar dense solve"] = (mo[sel], ref_a["mean"])
+                res[f"dimension {a}: cov = scalar dense solve"] = (Po[np.ix_(sel, sel)], ref_a["cov"])
+            other = [(i * d + a, j * d + b) for i in range(n) for j in range(n) for a in range(d) for b in range(d) if a != b]
+            res["no correlation between dimensions"] = (np.array([Po[i, j] for i, j in other], dtype=object if orc.sym else float),
+                                                         orc.zeros((len(other),)))
+            return res
+        ref = sc.ekf_step(orc, cfg_ref, co, md, Pd, t0, hh, dd, A, Q, running=ex["run"])
         mo, Po = cm.dense_rv(orc, ssm, u, d)
         res = {"mean = dense reference": (mo, ref["mean"])}
         if calib == "none" or ssm != "blockdiag":
             res["cov = dense reference"] = (Po, ref["cov"])
+            # reported standard deviations (caller's structure: one entry per Taylor coefficient)
+            sd = orc.arr(std)
+            diag = np.array([ref["cov"][i, i] for i in range(n * d)], dtype=object if orc.sym else float).reshape(n, d)
+            want = diag[:, 0] if ssm == "isotropic" else diag
+            res["reported std^2 = diagonal of the dense reference covariance"] = (sd * sd, want)
         if calib == "mle":
             r = orc.arr(aux[1])
             if ssm == "blockdiag":
